@@ -750,7 +750,7 @@ func (x *Exec) instrMods(in ssa.Instruction, li *loopInfo, add func(k, mode stri
 		add(v, "new")
 	case *ssa.Next:
 		if rg, ok := in.Iter.(*ssa.Range); ok {
-			k := fmt.Sprintf("L:iter_%s_%d", sanitize(rg.Name()), rg.Block().Index)
+			k := x.iterKey(rg)
 			if _, known := e.heapSort[k]; known { // iterators created inside the loop are re-initialised there
 				add(k, "any")
 			}
